@@ -188,12 +188,50 @@ P = {
          "outside (vh_C20_watcher_events starts at filterEvent)"),
 }
 
+# harnesses added in the fourth round (see DESIGN.md §9.10)
+ADD = {
+ 'C01': "vh_C04_issuer_plumbing (issuer/audience settings reach go-oidc's verifier through newProviderDataFromConfig), "
+        "vh_C15_netset_pair (trusted networks), vh_C08_authonly_all (auth-only constraints are conjunctive), "
+        "vh_C14_validate_token, vh_C04_token_session.",
+ 'C03': "vh_C03_flow_two now lets the browser present the first login's CSRF cookie at the second start (every login its own "
+        "state, nonce and PKCE challenge) and completes both outstanding logins in either order after applying the first "
+        "callback's Set-Cookie headers; vh_C18_csrf_cookie.",
+ 'C04': "vh_C04_issuer_plumbing (go-oidc's IDTokenVerifier modelled as its documented contract: issuer, client id, expiry, "
+        "signature verdict; a foreign issuer is refused unless the operator disabled the check, whatever the discovery "
+        "setting), vh_C04_token_session (CreateTokenToSessionFunc: claims of every JSON shape, two tokens through one "
+        "loader), vh_C04_enrich (no identity from the unverified access token).",
+ 'C05': "vh_C03_flow_two (own nonce and PKCE challenge per login).",
+ 'C06': "vh_C16_constructor (the redirect whitelist reaches the validator unchanged).",
+ 'C08': "vh_C08_allowed_groups (allowed-groups through the real configuration path: blank/padded entries never lift the "
+        "restriction).",
+ 'C09': "vh_C18_make (Max-Age equals the lifetime for whole-second lifetimes up to 68 years), "
+        "vh_C10_manager_roundtrip (stored TTL equals cookie-expire whatever the session age).",
+ 'C10': "vh_C10_load_order (up to 13 parts in any header order join in index order), vh_C10_manager_history (two saves "
+        "of arbitrary identities/ages under one ticket, then load), cookie_expire=0 in vh_C10_step/vh_C10_clear.",
+ 'C11': "vh_C10_manager_history (after sign-out no cookie the browser ever held loads).",
+ 'C12': "vh_C14_validate_token (a stale session that cannot be refreshed stays valid only on a complete 200 answer of the "
+        "validation endpoint), vh_C10_manager_history.",
+ 'C14': "vh_C14_validate_token (status classes, refused and truncated answers), vh_C04_token_session, vh_C04_enrich.",
+ 'C15': "vh_C15_routes (legacy regexes containing '=' / '!=' are path regexes verbatim), vh_C16_constructor (trusted "
+        "networks, routes and preflight flag arrive unchanged).",
+ 'C16': "vh_C16_validate_parser (the whole of validation.Validate executed: the real-client-IP parser is installed exactly "
+        "in reverse-proxy mode), vh_C16_constructor (Validate -> NewOAuthProxy: forwarding headers reach the client-address "
+        "logic only in reverse-proxy mode; page templates and Prometheus handlers substituted by harness models).",
+ 'C18': "vh_C18_csrf_cookie (the CSRF cookie and its deletion carry the configured attributes, SameSite never relaxed), "
+        "vh_C18_sort over sort.SliceStable as well.",
+ 'C19': "vh_C15_xff_parser (degenerate forwarding-header values never crash), vh_C04_token_session.",
+ 'C20': "vh_C20_usermap_race_reloads (a validation concurrent with three reloads in a row: retired maps are never written "
+        "again).",
+}
+
 
 def main():
     old = json.load(open(os.path.join(V, 'MANIFEST.json')))
     checks = []
     for pid in sorted(P):
         text, note = P[pid]
+        if pid in ADD:
+            text = text + " Added later: " + ADD[pid]
         checks.append({
             "property_id": pid,
             "quick_cmd": "./check %s --tier quick" % pid,
@@ -214,6 +252,7 @@ def main():
     names = {l.split('\t')[0] for l in out.splitlines() if l.startswith('vh_')}
     import re
     for pid, (text, _) in P.items():
+        text = text + ADD.get(pid, '')
         for m in re.findall(r'vh_C\d\d_[a-z0-9_]+', text):
             m = m.rstrip('_')
             if not any(n == m or n.startswith(m) for n in names):
